@@ -1105,6 +1105,42 @@ package decoder
 //@   requires region(p, dsize(dataOf(d.dec))) && dsize(dataOf(d.dec)) >= 1
 //@   assigns all
 
+// ---------------------------------------------------------------- []byte destinations (C07, C12, C06)
+// A []byte is decoded either from a base64 string or from an array of numbers. In both cases the only
+// part of the destination object written directly is its slice header (24 bytes at p), and the slice
+// stored for a base64 string is allocated in this call: it shares no memory with the input copy.
+//@ func (*bytesDecoder).decodeBinary(d, ctx, cursor, depth, p) (res, c, err)
+//@   props C07 C12 C06
+//@   requires d != nil && d.stringDecoder != nil && ctx != nil && bufOK(ctx.Buf, cursor)
+//@   requires region(p, 24) && dstApart(p, 24, ctx.Buf)
+// struct invariant (constructor): the array form is decoded by a slice decoder, which writes a slice header
+//@   requires dsize(dataOf(d.sliceDecoder)) == 24
+// the array form hands the same destination down
+//@   callassert[C07] Decode: arg4 == p
+//@   ensures err == nil ==> cursor < c && c < len(old(ctx.Buf))
+//@   ensures err == nil && res != nil ==> len(res) >= 0
+//@   ensures ctx.Buf == old(ctx.Buf)
+//@   assigns all
+
+//@ func (*bytesDecoder).Decode(d, ctx, cursor, depth, p) (c, err)
+//@   props C07 C12 C06
+//@   requires d != nil && d.stringDecoder != nil && ctx != nil && bufOK(ctx.Buf, cursor)
+//@   requires region(p, 24) && dstApart(p, 24, ctx.Buf)
+//@   requires dsize(dataOf(d.sliceDecoder)) == 24
+// assumed of encoding/base64: DecodedLen is not negative for a non-negative length, and Decode reports
+// a count between 0 and len(dst) (it writes dst[:n] only)
+//@   postassume DecodedLen: result0 >= 0
+//@   postassume Decode: result0 >= 0 && result0 <= decodedLen
+// what is stored is (a prefix of) the slice made in this call, never a window of the input copy
+//@   ghost stored := ptrOf(bytesAt(p))
+//@   ghost made := ptrOf(b)
+//@   ghost isnew := freshAlloc(b) ? 1 : 0
+//@   ghost body := ptrOf(bytes)
+//@   ensures[C12] err == nil && body != 0 ==> stored == made
+//@   ensures[C12] err == nil && body != 0 ==> isnew == 1
+//@   ensures err == nil ==> cursor < c && c < len(old(ctx.Buf))
+//@   assigns all
+
 // ---------------------------------------------------------------- struct decoding: every field lands inside the struct (C07, C06)
 // ssize(d): size of the struct type a structDecoder was compiled for (set up by the reflection-driven compiler)
 //@ ufun ssize(Int) Int
